@@ -91,6 +91,148 @@ def requester_maxlen(A_: int, P: int, C: int, L: int, as_file: bool) -> bool:
     return ok
 
 
+# ------------------------------------------------------------------------------------------------
+# "each side announces a value it is itself prepared to receive": octets in, over the real provider
+# ------------------------------------------------------------------------------------------------
+
+LOCAL = [64, 256, 1024]
+PEER = [0, 32, 64, 200, 256, 1000, 65536]
+VERIF_SOP = '1.2.840.10008.1.1'
+CT = '1.2.840.10008.5.1.4.1.1.2'
+
+
+def _store_wire(maxlen, nbytes):
+    """a C-STORE-RQ with an nbytes data set, fragmented for maximum PDU length maxlen -> (octets, data)"""
+    m = dm.CStoreRQMessage()
+    m.message_id = 5
+    m.sop_class_uid = CT
+    m.affected_sop_instance_uid = '1.2.3'
+    m.priority = 0
+    data = bytes((i * 7 + 1) % 256 for i in range(nbytes))
+    m.data_set = data
+    m.set_length()
+    pdus = list(m.encode(3, maxlen))
+    return b''.join(p.encode() for p in pdus), data, max(p.pdu_length for p in pdus)
+
+
+def _announced_in(raw):
+    from vt.refs import ps38
+    v = ps38.parse(raw)
+    for it in v['items']:
+        if it[0] == 'user':
+            for sub in it[2]:
+                if sub[0] == 'maxlen':
+                    return sub[2]
+    return None
+
+
+def _live_receive(role, a_loc, p_peer):
+    """-> (value the library announced, largest PDU the peer then sent, message received intact?, A-ABORT written?)"""
+    import pydicom
+    from vt import sim
+    from vt.harness import live as L
+    from pynetdicom2 import applicationentity, sopclass
+    L.install(sim.SimClock(1000))
+    got = []
+    if role == 'acceptor':
+        class Entity(applicationentity.AE):
+            def __init__(self):
+                applicationentity.AEBase.__init__(self, ['1.2.840.10008.1.2'], a_loc)
+                self.supported_scp.update({CT: sopclass.storage_scp, VERIF_SOP: sopclass.verification_scp})
+                self.store_in_file.add(CT)
+
+            def on_receive_store(self, ctx, ds):
+                from vt.refs import part10
+                whole = ds.read()
+                meta, off = part10.read_meta(whole)
+                got.append(whole[off:])
+                return 0
+
+        class _Tempfile(object):
+            @staticmethod
+            def TemporaryFile(*a, **k):
+                return pdu.cStringIO()
+        applicationentity.tempfile = _Tempfile
+        ae = Entity()
+        la = L.LiveAcceptor(ae, 'PEER', a_loc)
+        rq = pdu.AAssociateRqPDU('SCP', 'PEER', [
+            pdu.ApplicationContextItem(A.APP_CTX),
+            pdu.PresentationContextItemRQ(3, pdu.AbstractSyntaxSubItem(CT), [pdu.TransferSyntaxSubItem('1.2.840.10008.1.2')]),
+            A.user_info(p_peer)])
+        la.deliver(rq.encode())
+        la.establish()
+        wire = la.wire()
+        announced = _announced_in(wire[0]) if wire else None
+        if not announced:
+            return announced, 0, False, False
+        octets, data, biggest = _store_wire(announced, 2 * announced + 11)
+        la.deliver(octets)
+        la.serve_one()
+        aborted = any(w[0] == 7 for w in la.wire())
+        return announced, biggest, got == [data] and la.pump.err is None, aborted
+    # requester
+    class Client(applicationentity.ClientAE):
+        pass
+    ae = Client('LOCAL', ['1.2.840.10008.1.2'], a_loc)
+
+    def store_user(asce, ctx, *a):
+        return None
+    ae.add_scu(store_user, [CT])
+    state = {'announced': None}
+
+    def react(new):
+        out = []
+        for raw in new:
+            if raw[0] == 1:
+                state['announced'] = _announced_in(raw)
+                ac = pdu.AAssociateAcPDU('REMOTE', 'LOCAL', [
+                    pdu.ApplicationContextItem(A.APP_CTX),
+                    pdu.PresentationContextItemAC(1, 0, pdu.TransferSyntaxSubItem('1.2.840.10008.1.2')),
+                    A.user_info(p_peer)])
+                out.append(ac.encode())
+        return out
+    lr = L.LiveRequester(ae, {'aet': 'REMOTE', 'address': 'h', 'port': 104}, react)
+    lr.asce.request()
+    announced = state['announced']
+    if not announced:
+        return announced, 0, False, False
+    m = dm.CStoreRSPMessage()                  # any message with a data set would do: a C-GET sub-operation request
+    octets, data, biggest = _store_wire(announced, 2 * announced + 11)
+    lr.sock.inbox.append(octets)
+    try:
+        msg, cid = lr.asce.receive()
+        intact = cid == 3 and msg.data_set == data and lr.pump.err is None
+    except Exception:
+        intact = False
+    aborted = any(w[0] == 7 for w in lr.wire())
+    return announced, biggest, intact, aborted
+
+
+@cond(bounds='both roles over the REAL provider (octets in): local configured maximum from {64, 256, 1024}, peer-announced '
+             'maximum from {0, 32, 64, 200, 256, 1000, 65536} (symbolic selectors); the value the library announces is '
+             'read from its A-ASSOCIATE PDU on the wire, then the peer sends a C-STORE-RQ whose P-DATA-TF PDUs are as '
+             'long as that announced value allows (data set of 2 x announced + 11 bytes): it must be received intact '
+             'and not be answered with A-ABORT - whatever the peer announced for the other direction',
+      family={'role': ['acceptor', 'requester']}, timeout=240)
+def receives_what_it_announced(ai: int, pi: int) -> bool:
+    """
+    pre: 0 <= ai < len(LOCAL) and 0 <= pi < len(PEER)
+    post: _
+    """
+    from vt import sim
+    from vt.api import pick
+    a_loc, p_peer = LOCAL[pick(ai, 0, len(LOCAL) - 1)], PEER[pick(pi, 0, len(PEER) - 1)]
+    with sim._no_tracing():                    # concrete from here on: the solver chose the pair
+        announced, biggest, intact, aborted = _live_receive(fam('role'), a_loc, p_peer)
+    ok = announced is not None and 1 <= announced <= a_loc and biggest == announced and intact and not aborted
+    deep(ok and p_peer == 32 and a_loc == 1024)
+    return ok
+
+
 def explain(cname, args, famv):
+    if cname == 'receives_what_it_announced':
+        a_loc, p_peer = LOCAL[args['ai']], PEER[args['pi']]
+        return 'configured %d, peer announced %d -> (announced by the library, largest PDU sent by the peer, received ' \
+               'intact, A-ABORT written) = %r' % (a_loc, p_peer, _live_receive(famv['role'], a_loc, p_peer))
     return ('configured %d, peer announced %d (0 = no limit): the library must announce 1..configured and still '
             'deliver a %d-byte data set in PDUs <= peer limit' % (args['A_'], args['P'], args['L']))
